@@ -14,11 +14,13 @@ import (
 	"bytes"
 	"context"
 	"crypto/sha256"
+	"encoding/binary"
 	"errors"
 	"fmt"
 	"io"
 	"math"
 	"os"
+	"path/filepath"
 	"runtime/pprof"
 	"sort"
 	"strings"
@@ -774,6 +776,44 @@ func newTree(path string, opts ...fstree.Option) *fstree.FSTree {
 	return t
 }
 
+// putBatchOrdered stores objs with PutBatch and makes the member order of the combined file equal to the
+// slice order (Go's random map iteration order is owned here: wrong order -> remove the links, retry).
+func putBatchOrdered(t *fstree.FSTree, root string, objs []*tobj, datas [][]byte) {
+	path := func(o *tobj) string {
+		s := o.addr.Object().EncodeToString() + "." + o.addr.Container().EncodeToString()
+		return filepath.Join(root, s[:1], s[1:]) // depth 1
+	}
+	for try := 0; ; try++ {
+		if try > 5000 {
+			run.Fatal("cannot obtain the requested member order from PutBatch")
+		}
+		m := map[oid.Address][]byte{}
+		for i, o := range objs {
+			m[o.addr] = datas[i]
+		}
+		must(t.PutBatch(m), "put batch")
+		raw, err := os.ReadFile(path(objs[0]))
+		must(err, "read combined file")
+		ok := true
+		off := 0
+		for _, o := range objs {
+			const pref = 2 + 32 + 4
+			id := o.addr.Object()
+			if len(raw) < off+pref || raw[off] != 0x7f || !bytes.Equal(raw[off+2:off+34], id[:]) {
+				ok = false
+				break
+			}
+			off += pref + int(binary.BigEndian.Uint32(raw[off+34:]))
+		}
+		if ok {
+			return
+		}
+		for _, o := range objs {
+			must(os.Remove(path(o)), "undo batch")
+		}
+	}
+}
+
 type spec struct {
 	L       int
 	Pattern string
@@ -851,13 +891,14 @@ func buildFSTree(w *world, specs []spec) {
 		must(tp.Put(o.addr, o.data(true)), "put plain zstd")
 		ops = append(ops, o)
 		for _, f := range []string{fBatch, fBatchZ, fBatchMix} {
-			m := map[oid.Address][]byte{}
+			var bo []*tobj
+			var bd [][]byte
 			for k := 0; k < 3; k++ {
 				o = mkObject(f, s.L, s.Pattern, k)
-				m[o.addr] = o.data(f == fBatchZ || (f == fBatchMix && k != 1))
+				bo, bd = append(bo, o), append(bd, o.data(f == fBatchZ || (f == fBatchMix && k != 1)))
 				ops = append(ops, o)
 			}
-			must(tp.PutBatch(m), "put batch")
+			putBatchOrdered(tp, w.dir+"/plain", bo, bd)
 		}
 		o = mkObject(fSingle, s.L, s.Pattern, 0)
 		must(tc.Put(o.addr, o.enc), "put combined single")
